@@ -35,7 +35,16 @@ CLAIMED = {
  "C20": ("WaitGroup discipline on all paths (WG-DISCIPLINE), re-validation of the stop flag after the blocking Acquire (RECHECK), semaphore acquire/release pairing (SEMA-PAIR), lock-dominates-store and no-unchecked-assertion rules on error aggregation (ERR-AGG)",
          "Structural necessary conditions for peach/run-parallel: Add before go, Done exactly once per worker, Wait before every return, the broken flag re-read after waiting for a slot, slots released exactly once or handed to a worker, shared error written under its mutex, callee errors never asserted unchecked. Output union and exactly-once per input under all schedules are not decided.",
          "trusts go/ssa"),
- "C39": ("lockset dataflow over SSA with boolean-correlated path sensitivity (EVALER-LOCK, PTRVAR-LOCK); guarded-field set derived from the struct declaration (GUARDED-SET)",
+ "C21": ("defer/dominance and pairing checks on the with/tmp/defer machinery (RESTORE-DEFER, DEFERS-RUN), loop-direction check on the restore loops (REVERSE), guarded-overwrite check on exception combination (BODY-WINS)",
+         "Structural necessary conditions on every exit path: with's restores run from a defer registered before the first assignment; set() saves before Var.Set and registers the restore only on success; tmp registers through the frame's defer list; Closure.Call always runs the defer list after the body; both restore loops run last-to-first; a restore/deferred exception replaces the result only when the body's is nil. Restored values and dynamic nesting are not decided.",
+         "trusts go/ssa"),
+ "C22": ("dominance of module evaluation by a failed lookup of the same key (CACHE-KEY), install/execute/delete pairing on all paths of evalModule (INSTALL-PAIR), branch-shape check of relative-spec resolution (RELATIVE-BASE)",
+         "Structural necessary conditions: a module is evaluated only after its key missed in the module table and is installed under that same key before running, the importer gets the installed namespace, a failing evaluation deletes the entry on every path, relative specs resolve against the importing file's directory or the working directory. Path normalisation, plugins and concurrent imports are not decided.",
+         "trusts go/ssa"),
+ "C16": ("dominance of prepare/execute/global-store by the no-error edges of parse and compile (GATE), parameter-use check that compile clones its namespace (COMPILE-PURE), argument-provenance check over all compile callers (CHECK-AGREE)",
+         "Structural necessary conditions: nothing is prepared, stored into the interpreter or executed unless both parsing and compilation succeeded; compilation mutates only a clone of the namespace; evaluation and the static check compile against the same builtin and namespace views. Equality of the reported error sets for all programs is not decided.",
+         "trusts go/ssa"),
+ "C39": ("lockset dataflow over SSA with boolean-correlated path sensitivity (EVALER-LOCK, PTRVAR-LOCK); guarded-field set derived from the struct declaration (GUARDED-SET); table-free write-under-read-lock contradiction rule (RLOCK-WRITE)",
          "Structural necessary condition, all paths of all functions: every access to the interpreter's mutex-guarded fields and every dereference of a PtrVar pointer happens with the right lock held; maps do not leave the critical section; locks are balanced. Freedom from races on other state and serialisability of results are not decided.",
          "trusts go/ssa; lock identity is by struct field, not by object (one Evaler per interpreter)"),
  "C32": ("lockset on the redraw flag (FULL-LOCK), select/capacity shape check (NONBLOCK), path pairing on the event loop's CFG (FINAL-ONCE, REDRAW-AFTER-WAKE)",
